@@ -736,6 +736,7 @@ qb_log_filter_ctl2(int32_t t, enum qb_log_filter_conf c,
 {
 	struct qb_log_filter *new_flt = NULL;
 	regex_t *regex = NULL;
+	regex_t removal_regex;
 	struct callsite_section *sect;
 	int32_t rc;
 
@@ -767,9 +768,22 @@ qb_log_filter_ctl2(int32_t t, enum qb_log_filter_conf c,
 
 	if (new_flt && new_flt->regex) {
 		regex = new_flt->regex;
+	} else if ((c == QB_LOG_FILTER_REMOVE || c == QB_LOG_TAG_CLEAR) &&
+		   (type == QB_LOG_FILTER_FUNCTION_REGEX ||
+		    type == QB_LOG_FILTER_FILE_REGEX ||
+		    type == QB_LOG_FILTER_FORMAT_REGEX) &&
+		   strcmp(text, "*") != 0) {
+		/* the stored filter (and its regex) is gone already, but the
+		 * existing callsites it selected still have to be found */
+		if (regcomp(&removal_regex, text, 0) == 0) {
+			regex = &removal_regex;
+		}
 	}
 	qb_list_for_each_entry(sect, &callsite_sections, list) {
 		_log_filter_apply(sect, t, c, type, text, regex, high_priority, low_priority);
+	}
+	if (regex == &removal_regex) {
+		regfree(&removal_regex);
 	}
 	pthread_rwlock_unlock(&_listlock);
 	return 0;
